@@ -114,3 +114,50 @@ Proof.
   unfold pre_positions, sub. rewrite subtree_at_nat. destruct (subtree_at t p) as [s|]; cbn; [apply pre_positions_t_nat|reflexivity].
 Qed.
 End N.
+
+(** ---- navigation attributes ---- *)
+Require Import AT.Spec.NavSpec AT.Proofs.NavProofs.
+Section NavNat.
+Variable g : id -> id.
+
+Lemma tl_map {A B} (f : A -> B) l : tl (map f l) = map f (tl l).
+Proof. destruct l; reflexivity. Qed.
+
+Theorem descendants_natural s : descendants (map_tree g s) = map g (descendants s).
+Proof. rewrite !descendants_ok. unfold descendants_spec. rewrite preorder_nat. apply tl_map. Qed.
+
+Lemma leaves_spec_nat s : leaves_spec (map_tree g s) = map g (leaves_spec s).
+Proof.
+  induction s as [n cs IH] using tree_ind'. destruct cs as [|c cs]; [reflexivity|].
+  cbn [map_tree map leaves_spec]. inversion IH as [|c0 cs0 Hc Hcs]; subst.
+  cbn [flat_map]. rewrite map_app, Hc. f_equal.
+  clear IH Hc. induction Hcs as [|d ds Hd _ IHd]; cbn; [reflexivity|]. rewrite map_app, Hd, IHd. reflexivity.
+Qed.
+Theorem leaves_natural s : leaves (map_tree g s) = map g (leaves s).
+Proof. rewrite !leaves_ok. apply leaves_spec_nat. Qed.
+
+Lemma theight_nat s : theight (map_tree g s) = theight s.
+Proof.
+  induction s as [n cs IH] using tree_ind'. cbn [map_tree theight].
+  induction IH as [|c cs Hc _ IHcs]; cbn [map fold_right]; [reflexivity|]. rewrite Hc, IHcs. reflexivity.
+Qed.
+Theorem height_natural s : height (map_tree g s) = height s.
+Proof. rewrite !height_ok. unfold height_spec. apply theight_nat. Qed.
+
+Lemma valid_prefix t p : forall r, subtree_at t (p ++ r) <> None -> subtree_at t p <> None.
+Proof. intros r H E. apply H. rewrite subtree_at_app, E. reflexivity. Qed.
+Lemma prefixes_are_prefixes p : forall q, In q (prefixes p) -> exists r, p = q ++ r.
+Proof.
+  induction p as [|i p IH] using rev_ind; intros q H.
+  - cbn in H. destruct H as [<-|[]]. exists []. reflexivity.
+  - rewrite prefixes_snoc in H. apply in_app_or in H. destruct H as [H|[<-|[]]].
+    + destruct (IH q H) as [r ->]. exists (r ++ [i]). rewrite app_assoc. reflexivity.
+    + exists []. rewrite app_nil_r. reflexivity.
+Qed.
+Theorem path_natural t p : valid t p ->
+  path (map_tree g t) p = match path t p with Ok l => Ok (map g l) | Err e => Err e | OutOfFuel => OutOfFuel end.
+Proof.
+  intros V. rewrite !path_ok. unfold path_spec. rewrite map_map. f_equal. apply map_ext_in. intros q Hq.
+  apply label_at_natural. destruct (prefixes_are_prefixes p q Hq) as [r E]. apply (valid_prefix t q r). rewrite <- E. exact V.
+Qed.
+End NavNat.
